@@ -23,6 +23,15 @@ class WeightEngine:
         # weights of the point parameters of *private* helpers come from their call sites (a helper that receives
         # differences of points works on displacements); public functions receive positions
         self.param_w = {}
+        # private helpers that are called with starred arguments (f(*sample)): the weights of their parameters cannot be
+        # read off the call site
+        self.opaque_calls = set()
+        for q, fn in self.M.funcs.items():
+            inf = self.T.of(fn)
+            for c in ast.walk(fn.node):
+                if isinstance(c, ast.Call) and any(isinstance(a, ast.Starred) for a in c.args):
+                    for t in inf.targets(c, ("call",)):
+                        self.opaque_calls.add(t.qname)
         for _ in range(3):
             self.callsites = {}
             self.findings, self.sites = [], 0
@@ -55,6 +64,8 @@ class W:
             for k, v in list(s.env.items()):
                 if v[0] == "pt" and (q, k) in eng.param_w:
                     s.env[k] = ("pt", eng.param_w[(q, k)])
+                elif v[0] == "pt" and q in eng.opaque_calls:
+                    s.env[k] = ("pt", None)      # called with *args somewhere: what it receives is not known
     def typ(s, e):
         try: return s.inf.typeof(e)
         except Exception: return P.UNK
